@@ -527,7 +527,7 @@ func c01Scout(c *Ctx, k, of int) {
 					return
 				}
 				// several rejected words in a row: every one of them must be redrawn
-				for k := 2; k <= 4; k++ {
+				for _, k := range []int{2, 3, 4, 17, 40} {
 					words := []uint32{}
 					for x := 0; x < k; x++ {
 						words = append(words, uint32(rejectedWord))
